@@ -270,6 +270,10 @@ func newTree(kind, variant string) treeDrv {
 				func(s string) string { return string(xbytes(collOrig(s))) },
 				func(k string) string { return xhex([]byte(k)) })
 		}
+	case kind == "raw":
+		// a user codec that is not a tuple schema: the identity on byte strings (the caller keeps the key set prefix-free)
+		return numDrv(art.NewCompoundTree[string, int](rawCodec{}),
+			func(s string) string { return string(xbytes(s)) }, func(k string) string { return xhex([]byte(k)) })
 	case strings.HasPrefix(kind, "comp:"):
 		sc := parseSchema(kind[5:])
 		return numDrv(art.NewCompoundTree[string, int](sc),
@@ -310,6 +314,11 @@ type field struct {
 	typ byte // 'u','s','f','t'(string)
 	w   int
 }
+type rawCodec struct{}
+
+func (rawCodec) Transform(k string) ([]byte, []byte) { b := []byte(k); return b, b }
+func (rawCodec) Restore(b []byte) string             { return string(b) }
+
 type schemaCodec struct{ fields []field }
 
 func parseSchema(s string) schemaCodec {
